@@ -162,10 +162,11 @@ else:
         o, p = corpus.labels_for(n, m, v)
         fresh = digest(observe(concepts.Context(o, p, table(k, n, m, False))))
         c, l = loaded[k]
+        was_cached = cached(c)      # the lazy flag right after loading, BEFORE anything touches the lattice
         for what, x in (('ctx', c), ('lat', LatHolder(l))):
             try:
                 out.append({'k': k, 'what': what, 'out': 'ok', 'obs': digest(observe(x)), 'fresh': fresh,
-                            'eq': True, 'cached': cached(c) if what == 'ctx' else False})
+                            'eq': True, 'cached': was_cached if what == 'ctx' else False})
             except Exception as exc:
                 out.append({'k': k, 'what': what, 'out': type(exc).__name__})
     for k, (c, before) in enumerate(own):
